@@ -75,3 +75,103 @@ Theorem insignificant_whitespace2 :
 Proof. exact CssRoundTrip.insignificant_whitespace2. Qed.
 Print Assumptions insignificant_whitespace2.
 
+
+(* ---------- every class of insignificant syntax the property lists (Proofs/CssVariants.v, after the parser fixes): letter case of property names / hex digits / keywords, final ';' dropped, kept or doubled and empty declarations anywhere (also leading), unknown properties with arbitrary values (';' allowed inside balanced brackets), junk statements between rules (at-rules, unparsable rule sets); vsheet_meaning = the rule sets without the unknown declarations ---------- *)
+From H2T Require Import Base Tagged Wrap Css Dom CssParse Proofs.CssTotal Proofs.CssRoundTrip Proofs.CssVariants.
+Theorem parse_vrule :
+  forall (v : vrule) (rest : list chr),
+       vrule_ok v ->
+       parse_ruleset (print_vrule v ++ rest) =
+       POk (vrule_raw v) (skip_ws (CssRoundTrip.w_end (CssRoundTrip.w_base (v_ws v)) ++ rest)).
+Proof. exact CssVariants.parse_vrule. Qed.
+Print Assumptions parse_vrule.
+
+Theorem junk_at_rule :
+  forall (nm : list N) (l : atoms),
+       name_okb nm = true ->
+       atoms_ok l -> achain l = true -> complete l -> at_follow l = true -> junk_ok (print_at nm l).
+Proof. exact CssVariants.junk_at_rule. Qed.
+Print Assumptions junk_at_rule.
+
+Theorem junk_unparsable :
+  forall (a : atom) (l : list (list chr * atom)),
+       atoms_ok (([], a) :: l) ->
+       achain (([], a) :: l) = true ->
+       complete (([], a) :: l) ->
+       ruleset_fails (print_atoms (([], a) :: l)) -> junk_ok (print_atoms (([], a) :: l)).
+Proof. exact CssVariants.junk_unparsable. Qed.
+Print Assumptions junk_unparsable.
+
+Theorem fails_pseudo_class :
+  forall (n m : list N) (l : list (list chr * atom)),
+       l <> [] ->
+       atoms_ok (([], AIdent n) :: ([], APunct 58) :: ([], AIdent m) :: l) ->
+       achain (([], AIdent n) :: ([], APunct 58) :: ([], AIdent m) :: l) = true ->
+       lN_eqb (map lowerN m) s_nth_child = false ->
+       ruleset_fails (print_atoms (([], AIdent n) :: ([], APunct 58) :: ([], AIdent m) :: l)).
+Proof. exact CssVariants.fails_pseudo_class. Qed.
+Print Assumptions fails_pseudo_class.
+
+Theorem fails_after_elem :
+  forall (n : list N) (a2 : atom) (l : list (list chr * atom)),
+       atoms_ok (([], AIdent n) :: ([], a2) :: l) ->
+       CssRoundTrip.selcont (afc a2) = false ->
+       (afc a2 =? 44) = false ->
+       (afc a2 =? 123) = false -> ruleset_fails (print_atoms (([], AIdent n) :: ([], a2) :: l)).
+Proof. exact CssVariants.fails_after_elem. Qed.
+Print Assumptions fails_after_elem.
+
+Theorem variant_sheet_rt :
+  forall (lead : text) (ss : list vstmt),
+       CssRoundTrip.wsm lead ->
+       vsheet_ok ss ->
+       exists rest : text,
+         CssRoundTrip.wsm rest /\ parse_stylesheet (lead ++ print_vsheet ss) = POk (vsheet_raw ss) rest.
+Proof. exact CssVariants.variant_sheet_rt. Qed.
+Print Assumptions variant_sheet_rt.
+
+Theorem variant_rules :
+  forall (lead : text) (ss : list vstmt),
+       CssRoundTrip.wsm lead ->
+       vsheet_ok ss -> parse_css_rules (lead ++ print_vsheet ss) = CssOk (rules_of (vsheet_meaning ss)).
+Proof. exact CssVariants.variant_rules. Qed.
+Print Assumptions variant_rules.
+
+Theorem variants_agree :
+  forall (lead1 : text) (ss1 : list vstmt) (lead2 : text) (ss2 : list vstmt),
+       CssRoundTrip.wsm lead1 ->
+       vsheet_ok ss1 ->
+       CssRoundTrip.wsm lead2 ->
+       vsheet_ok ss2 ->
+       vsheet_meaning ss1 = vsheet_meaning ss2 ->
+       parse_css_rules (lead1 ++ print_vsheet ss1) = parse_css_rules (lead2 ++ print_vsheet ss2).
+Proof. exact CssVariants.variants_agree. Qed.
+Print Assumptions variants_agree.
+
+Theorem insignificant_variants :
+  forall (lead : text) (ss : list vstmt),
+       CssRoundTrip.wsm lead ->
+       vsheet_ok ss ->
+       forallb CssRoundTrip.ruleset_ok (vsheet_meaning ss) = true ->
+       parse_css_rules (lead ++ print_vsheet ss) =
+       parse_css_rules (concat (map CssRoundTrip.print_ruleset (vsheet_meaning ss))).
+Proof. exact CssVariants.insignificant_variants. Qed.
+Print Assumptions insignificant_variants.
+
+Theorem real_item_decl :
+  forall (d : declaration) (s : spelling),
+       CssRoundTrip.decl_ok d = true -> spelling_ok d s -> item_decl (real_item d s) = d.
+Proof. exact CssVariants.real_item_decl. Qed.
+Print Assumptions real_item_decl.
+
+Theorem real_item_ok :
+  forall (d : declaration) (s : spelling),
+       CssRoundTrip.decl_ok d = true -> spelling_ok d s -> ditem_ok (real_item d s).
+Proof. exact CssVariants.real_item_ok. Qed.
+Print Assumptions real_item_ok.
+
+Theorem unknown_item :
+  forall i : ditem, known_name (map lowerN (di_name i)) = false -> is_unknown (item_decl i) = true.
+Proof. exact CssVariants.unknown_item. Qed.
+Print Assumptions unknown_item.
+
